@@ -7,6 +7,9 @@
      H <a> <ha> <b> <hb>   both trees get a history (mutations joined by ';', '-' = none),
                       then: equal both ways and on themselves, deep copy of a' compared
                       with a' and with b'
+     Y <a> <rules> <tags>  deep copy through a scripted json_c_shallow_copy_fn (see
+                      harness/drv_eq.c for the rule language); the script is turned into the
+                      two oracles of [deep_copy_cb] (answers, nodes carrying userdata)
    mut = <path>:<op>, path = (/i<idx> | /k<hexkey|->)*,
    op = A<jv> | P<hexkey|->=<jv> | K<hexkey|-> | I<dec> | U<dec> | B<0|1> | S<hex|-> | D<16hex>
       | Z<idx>=<jv> (array_put_idx) | X<idx>,<count> (array_del_idx).
@@ -66,6 +69,40 @@ let parse_mut (s : string) : step list * mutop =
 
 let parse_hist (s : string) = if s = "-" then [] else List.map parse_mut (String.split_on_char ';' s)
 let oks_text l = if l = [] then "-" else String.concat "" (List.map b01 l)
+
+(* ---- scripted callback: the rule language of the C driver as oracles ---- *)
+let type_char (v : jv) = match v with
+  | JObj _ -> 'o' | JArr _ -> 'a' | JStr _ -> 's' | JInt _ | JUint _ -> 'i' | JDouble _ -> 'd' | JBool _ -> 'b' | JNull -> 'n'
+
+let atom_match (a : string) (n : int) (c : cb_call) : bool =
+  let arg = String.sub a 1 (String.length a - 1) in
+  match a.[0] with
+  | '*' -> true
+  | 't' -> arg.[0] = type_char c.c_src
+  | 'p' -> arg.[0] = (match c.c_parent with None -> 'r' | Some p -> type_char p)
+  | 'd' -> int_of_z c.c_depth = int_of_string arg
+  | 'D' -> int_of_z c.c_depth >= int_of_string arg
+  | 'i' -> (match c.c_idx with Some i -> int_of_z i = int_of_string arg | None -> false)
+  | 'k' -> (match c.c_key with Some k -> k = (if arg = "-" then [] else bytes_of_hex arg) | None -> false)
+  | 'm' -> (match String.split_on_char ',' arg with
+            | [k; r] -> let k = int_of_string k in k > 0 && n mod k = int_of_string r
+            | _ -> false)
+  | 'c' -> n = int_of_string arg
+  | _ -> false
+let cond_match (cond : string) n c = List.for_all (fun a -> a <> "" && atom_match a n c) (String.split_on_char '&' cond)
+let eval_answer (rules : string) n c : char =
+  if rules = "-" then '1' else
+  let rec go = function
+    | [] -> '1'
+    | r :: t -> let l = String.length r in
+      if l >= 2 && r.[l - 2] = '=' && cond_match (String.sub r 0 (l - 2)) n c then r.[l - 1] else go t in
+  go (String.split_on_char ';' rules)
+let eval_tagged (tags : string) n c : bool =
+  tags <> "-" && type_char c.c_src <> 'd' && List.exists (fun cond -> cond_match cond n c) (String.split_on_char ';' tags)
+let env_of rules tags : cb_env =
+  { cb_answer = (fun h c -> match eval_answer rules (List.length h) c with
+        | 'F' | 'G' -> CbError | '2' | 'T' -> CbComplete | _ -> CbCreated);
+    cb_tagged = (fun h c -> eval_tagged tags (List.length h) c) }
 
 let inter a b = List.length (List.filter (fun x -> List.mem x b) a)
 
@@ -132,6 +169,19 @@ let run line =
         let (tc, _) = nt_copy ta n2 in
         Printf.sprintf "K 0 %s %s %s %d 6 %s %s" (e ta tc) (e tc ta) (dump (erase tc)) (inter (addrs ta) (addrs tc)) (e tc tb) (e tb tc) in
     String.concat " | " [head; k; "live=0"]
+  | ["Y"; sa; rules; tags] ->
+    let a = Jvtext.jv_of_string sa in
+    let (r, h) = deep_copy_cb_root (env_of rules tags) a in
+    let calls = List.length h in
+    (match r with
+     | None -> Printf.sprintf "Y -1 %d 1 %s | live=0" calls (dump a)
+     | Some c ->
+       let (ta, n1) = build a Z0 in
+       let (tc, _) = build c n1 in
+       let ntags = List.length (List.filter (fun x -> x)
+           (List.mapi (fun n call -> eval_answer rules n call = 'T' && type_char call.c_src <> 'd') (List.rev h))) in
+       Printf.sprintf "Y 0 %d 0 %s %s %s %s %d %d %d 6 %d | live=0" calls (b01 (nt_equal ta tc)) (b01 (nt_equal tc ta))
+         (dump a) (dump c) (List.length (addrs ta)) (List.length (addrs tc)) (inter (addrs ta) (addrs tc)) ntags)
   | _ -> failwith "eq line"
 
 let () = register "eq" run
